@@ -1,4 +1,5 @@
 import LoguruModel.Emit.Model
+import LoguruModel.Emit.Nested
 import LoguruModel.Driver
 open Emit Py
 
@@ -96,21 +97,21 @@ def showState (w : World) : String :=
   s!"reg={if regIds = "" then "-" else regIds}:min={minS}:{sinks}"
 
 /-- run one group of ops; stops at a blocked op -/
-def runGroup (env : Env) (n : Nat) : List Op → World → World × List Event × List Res × Bool
+def runGroup (stepF : World → Op → WRet) : List Op → World → World × List Event × List Res × Bool
   | [], w => (w, [], [], false)
   | op :: ops, w =>
-    let r := stepW env n w op
+    let r := stepF w op
     match r.res with
     | .blocked => (r.w, r.ev, [.blocked], true)
-    | x => let t := runGroup env n ops r.w; (t.1, r.ev ++ t.2.1, x :: t.2.2.1, t.2.2.2)
+    | x => let t := runGroup stepF ops r.w; (t.1, r.ev ++ t.2.1, x :: t.2.2.1, t.2.2.2)
 
-def runGroups (env : Env) (n : Nat) : List (List Op) → World → List String
+def runGroups (stepF : World → Op → WRet) : List (List Op) → World → List String
   | [], _ => []
   | g :: gs, w =>
-    let t := runGroup env n g w
+    let t := runGroup stepF g w
     let evs := (t.2.1.map showEvent).toArray.qsort (· < ·) |>.toList
     let line := s!"{"+".intercalate (t.2.2.1.map showRes)}:{",".intercalate evs}:{showState t.1}"
-    if t.2.2.2 then [line] else line :: runGroups env n gs t.1
+    if t.2.2.2 then [line] else line :: runGroups stepF gs t.1
 
 def field (toks : List String) (key : String) : Option String :=
   (toks.find? (fun t => t.startsWith (key ++ "="))).map (fun t => (t.drop (key.length + 1)).toString)
@@ -144,7 +145,13 @@ def step (line : String) : String :=
             reenter := fun i hh => (ree.filter (fun p => p.take 2 = [i, hh])).filterMap (fun p => p[2]?),
             loop := fun i => !(nls.contains i) }
         let w := cfgs.foldl (fun w c => addW c w) ({} : World)
-        "|".intercalate (runGroups env d groups w)
+        -- registry-level re-entrancy (Emit/Nested.lean); when no sink re-enters, the handler-level model
+        -- (Emit/Model.lean, the one `emit_characterised` & co speak about) must give the same answer
+        let nested := "|".intercalate (runGroups (stepWN env d) groups w)
+        if ree.isEmpty then
+          let flat := "|".intercalate (runGroups (stepW env d) groups w)
+          if flat = nested then nested else "LAYER-MISMATCH " ++ flat ++ " /// " ++ nested
+        else nested
       | _, _, _, _, _, _, _, _, _, _, _ => "bad-op"
     | _, _, _, _, _, _, _, _, _, _, _ => "bad-op"
   | _ => "bad-op"
